@@ -8,47 +8,196 @@ import (
 	"math/rand"
 	"os"
 	"os/exec"
+	"path/filepath"
 	"sort"
 	"strconv"
 	"strings"
+	"sync"
 	"time"
 
 	"github.com/siglens/siglens/pkg/config"
 	eswriter "github.com/siglens/siglens/pkg/es/writer"
+	"github.com/siglens/siglens/pkg/hooks"
+	sutils "github.com/siglens/siglens/pkg/segment/utils"
 	"github.com/siglens/siglens/pkg/segment/writer"
+	vtable "github.com/siglens/siglens/pkg/virtualtable"
 )
 
-// suite "bulk": bulk <line> <line> ...   line ::= <i|c|u|o>:<len>:<docOk>:<id>
-// The op line is the ABSTRACTION of a concrete body; the abstraction (kind, docOk) of every concrete
-// line is computed by the real ExtractIndexAndValidateAction / GetNewPLE. Exec rebuilds the same
-// concrete body deterministically from the abstract line (templates below).
+// suite "bulk":  bulk T=<entry>,<entry>,... <line> <line> ...
+//   entry ::= <p|a|n|x|t|d><n>/<valid>:<real slot>:<storefail>   the request's table of index names (slot = position)
+//   line  ::= <template>/<i|c|u|o>:<len>:<docOk>:<id>:<slot>
+// The op line is the ABSTRACTION of a concrete body and of its surroundings; the abstraction of every concrete line
+// (kind, docOk) and of every index name (valid, alias target) is computed by the real ExtractIndexAndValidateAction /
+// GetNewPLE / vtable.IsValidIndexName / vtable.IsAlias.  Exec rebuilds the same concrete body deterministically from
+// the op line (templates below), re-checks the abstraction, arranges the store failure (a regular file where the
+// index's segment directory would have to be created: createSegStore → resetSegStore → MkdirAll fails, so
+// writer.AddEntryToInMemBuf returns an error for exactly that index), runs the real HandleBulkBody and observes
+// every record the store takes through the production hook hooks.GlobalHooks.AfterWritingToSegment (called by
+// SegStore.AddEntry per stored record, with the segstore = the real index).
 
 func init() {
 	register(&Suite{Name: "bulk_e2e", Parallel: 6, Gen: genBulkE2E, Exec: execBulkE2E,
-		Rule: "the same bulk bodies posted to the real entry point in a fresh engine process, then flush and a match-all search over all indexes: the documents found (by _vid, each once) must be exactly those whose item was acknowledged 201; non-trivial = ≥2 lines"})
+		Rule: "bulk bodies over 1..4 index names (plain, alias, alias + its target, new, absent/non-string/invalid names in the middle; any interleaving; optionally a store that refuses one index) posted to the real entry point in a fresh engine process, then flush and one match-all search PER INDEX plus one over all: per item, created ⇔ its document is found exactly once, in the real index of ITS action and nowhere else; K concurrent bodies over 1..2 new indexes likewise; non-trivial = ≥2 lines"})
 	register(&Suite{Name: "bulk", Gen: genBulk, Exec: execBulk,
-		Rule: "bulk bodies of 0..10 lines from templates (index/create/update/delete/garbage actions, good/bad/oversize/empty documents, action-like docs, missing trailing newline/doc); distinct = sha1(op line); non-trivial = ≥2 lines and at least one non-201 item expected"})
+		Rule: "bulk bodies from templates (index/create/update/delete/garbage actions, good/bad/oversize/empty documents, action-like docs, missing trailing newline/doc) over a table of 1..4 valid index names plus absent/non-string/invalid ones, in curated (AABA, ABAB, ABBA, ABCA, …) and random interleavings, aliases with and without their target, new indexes, and a store that refuses chosen indexes; answer = items, errors, processed and, per (real index, index name), the documents the store took in hand-over order; distinct = sha1(op line); non-trivial = ≥2 lines and (a non-201 item or ≥2 index names)"})
 }
 
-// concrete line templates; the abstract form is derived from the real classifiers
+// ---------------------------------------------------------------- index names
+
+type bkIdx struct {
+	tmpl  byte // p: pool index vbp<n%4>; a: alias vbal<n%2> of vbp<n%2>; n: index never seen before vbn<n>; x: no _index member; t: _index is a number; d: a name that is not a simple file name
+	n     int
+	valid bool
+	real  int
+	fail  bool
+}
+
+var bkInvalidNames = []string{"..", ".", "vb/x", "../vbesc"}
+
+func bkIdxName(e bkIdx) string {
+	switch e.tmpl {
+	case 'p':
+		return fmt.Sprintf("vbp%d", e.n%4)
+	case 'a':
+		return fmt.Sprintf("vbal%d", e.n%2)
+	case 'n':
+		return fmt.Sprintf("vbn%d", e.n)
+	case 'd':
+		return bkInvalidNames[e.n%len(bkInvalidNames)]
+	}
+	return ""
+}
+
+// the `_index` member of the action object (with its trailing comma)
+func bkIdxField(e bkIdx) string {
+	switch e.tmpl {
+	case 'x':
+		return ""
+	case 't':
+		return fmt.Sprintf(`"_index":%d,`, e.n)
+	}
+	return fmt.Sprintf(`"_index":"%s",`, bkIdxName(e))
+}
+
+var bkBootOnce sync.Once
+
+// engine + the two aliases every case may use (vbal0 → vbp0, vbal1 → vbp1)
+func bkBoot() {
+	bootEngine()
+	bkBootOnce.Do(func() {
+		bkWorkerAlias("vbp0", "vbal0")
+		bkWorkerAlias("vbp1", "vbal1")
+	})
+}
+
+func bkWorkerAlias(index, alias string) {
+	if err := vtable.AddAliases(index, []string{alias}, 0); err != nil {
+		panic("bulk suite: cannot add alias: " + err.Error())
+	}
+}
+
+func bkFinalDir(name string) string {
+	return config.GetDataPath() + config.GetHostID() + "/final/" + name
+}
+
+// a regular file where the index's segment directory would be created: every store call for this index fails
+func bkWorkerBlock(name string) {
+	p := bkFinalDir(name)
+	os.RemoveAll(p)
+	if err := os.MkdirAll(filepath.Dir(p), 0o755); err != nil {
+		panic(err)
+	}
+	if err := os.WriteFile(p, []byte("verif: not a directory\n"), 0o644); err != nil {
+		panic(err)
+	}
+}
+
+// abstraction of table entry k by the real predicates: (valid, real slot); ok=false when the alias target is not in the table
+func bkAbsEntry(tab []bkIdx, k int) (bool, int, bool) {
+	name := bkIdxName(tab[k])
+	if !vtable.IsValidIndexName(name) {
+		return false, k, true
+	}
+	if is, target := vtable.IsAlias(name, 0); is {
+		for j, e := range tab {
+			if e.tmpl != 'a' && bkIdxName(e) == target {
+				return true, j, true
+			}
+		}
+		return true, k, false
+	}
+	return true, k, true
+}
+
+func bkFormatTable(tab []bkIdx) string {
+	var es []string
+	for _, e := range tab {
+		es = append(es, fmt.Sprintf("%c%d/%d:%d:%d", e.tmpl, e.n, b2i(e.valid), e.real, b2i(e.fail)))
+	}
+	return "T=" + strings.Join(es, ",")
+}
+
+func b2i(b bool) int {
+	if b {
+		return 1
+	}
+	return 0
+}
+
+func bkParseTable(tok string) ([]bkIdx, string) {
+	if !strings.HasPrefix(tok, "T=") {
+		return nil, "bad-op"
+	}
+	var tab []bkIdx
+	for _, es := range strings.Split(tok[2:], ",") {
+		p := strings.SplitN(es, "/", 2)
+		if len(p) != 2 || len(p[0]) < 2 || !strings.ContainsRune("panxtd", rune(p[0][0])) {
+			return nil, "bad-op"
+		}
+		n, err := strconv.Atoi(p[0][1:])
+		q := strings.Split(p[1], ":")
+		if err != nil || n < 0 || len(q) != 3 {
+			return nil, "bad-op"
+		}
+		v, e1 := strconv.Atoi(q[0])
+		rl, e2 := strconv.Atoi(q[1])
+		fl, e3 := strconv.Atoi(q[2])
+		if e1 != nil || e2 != nil || e3 != nil || v < 0 || v > 1 || fl < 0 || fl > 1 || rl < 0 {
+			return nil, "bad-op"
+		}
+		tab = append(tab, bkIdx{tmpl: p[0][0], n: n, valid: v == 1, real: rl, fail: fl == 1})
+	}
+	for k := range tab {
+		v, rl, ok := bkAbsEntry(tab, k)
+		if !ok || v != tab[k].valid || rl != tab[k].real {
+			return nil, fmt.Sprintf("abstraction-drift index %s: valid=%v real=%d", bkIdxName(tab[k]), v, rl)
+		}
+	}
+	return tab, ""
+}
+
+// ---------------------------------------------------------------- line templates
+
+// concrete line templates; the abstract form is derived from the real classifiers.  Every line but the empty one
+// carries its id, so that a stored record identifies its line.
 type bulkTmpl struct {
 	name string
-	mk   func(id int) string
+	mk   func(id int, ixf string) string
 }
 
 var bulkTmpls = []bulkTmpl{
-	{"index", func(id int) string { return fmt.Sprintf(`{"index":{"_index":"vbulk%d"}}`, id%3) }},
-	{"create", func(id int) string { return fmt.Sprintf(`{"create":{"_index":"vbulk%d"}}`, id%3) }},
-	{"update", func(id int) string { return `{"update":{"_index":"vbulk0","_id":"7"}}` }},
-	{"delete", func(id int) string { return `{"delete":{"_index":"vbulk0","_id":"7"}}` }},
-	{"garbage", func(id int) string { return `this is not json` }},
-	{"empty", func(id int) string { return `` }},
-	{"doc", func(id int) string { return fmt.Sprintf(`{"_vid":%d,"msg":"hello %d","n":%d}`, id, id, id*3) }},
-	{"baddoc", func(id int) string { return fmt.Sprintf(`{"_vid":%d,"msg":`, id) }},
-	{"bigdoc", func(id int) string {
+	{"index", func(id int, ixf string) string { return fmt.Sprintf(`{"index":{%s"_id":"%d"}}`, ixf, id) }},
+	{"create", func(id int, ixf string) string { return fmt.Sprintf(`{"create":{%s"_id":"%d"}}`, ixf, id) }},
+	{"update", func(id int, ixf string) string { return fmt.Sprintf(`{"update":{"_index":"vbp0","_id":"%d"}}`, id) }},
+	{"delete", func(id int, ixf string) string { return fmt.Sprintf(`{"delete":{"_index":"vbp0","_id":"%d"}}`, id) }},
+	{"garbage", func(id int, ixf string) string { return fmt.Sprintf(`this is not json %d`, id) }},
+	{"empty", func(id int, ixf string) string { return `` }},
+	{"doc", func(id int, ixf string) string { return fmt.Sprintf(`{"_vid":%d,"msg":"hello %d","n":%d}`, id, id, id*3) }},
+	{"baddoc", func(id int, ixf string) string { return fmt.Sprintf(`{"_vid":%d,"msg":`, id) }},
+	{"bigdoc", func(id int, ixf string) string {
 		return fmt.Sprintf(`{"_vid":%d,"pad":"%s"}`, id, strings.Repeat("x", 63000))
 	}},
-	{"edgedoc", func(id int) string { // exactly MAX_RECORD_SIZE-1 bytes
+	{"edgedoc", func(id int, ixf string) string { // exactly MAX_RECORD_SIZE-1 bytes
 		s := fmt.Sprintf(`{"_vid":%d,"pad":""}`, id)
 		return fmt.Sprintf(`{"_vid":%d,"pad":"%s"}`, id, strings.Repeat("y", 62999-len(s)))
 	}},
@@ -65,9 +214,10 @@ func init() {
 var bulkTsKey = "timestamp"
 var bulkStackBuf [64]byte
 
-func abstractLine(concrete string, id int) string {
+// abstract line; also returns the index name the real classifier extracts in action position
+func abstractLine(concrete string, id int, slot int) (string, string) {
 	k := "o"
-	act, _, _ := eswriter.ExtractIndexAndValidateAction([]byte(concrete))
+	act, ixName, _ := eswriter.ExtractIndexAndValidateAction([]byte(concrete))
 	switch act {
 	case eswriter.INDEX:
 		k = "i"
@@ -77,24 +227,163 @@ func abstractLine(concrete string, id int) string {
 		k = "u"
 	}
 	ok := 0
-	ple, err := writer.GetNewPLE([]byte(concrete), 1700000000000, "vbulk0", &bulkTsKey, bulkStackBuf[:])
+	ple, err := writer.GetNewPLE([]byte(concrete), 1700000000000, "vbp0", &bulkTsKey, bulkStackBuf[:])
 	if err == nil {
 		ok = 1
 		writer.ReleasePLEs([]*writer.ParsedLogEvent{ple})
 	}
-	return fmt.Sprintf("%s:%d:%d:%d", k, len(concrete), ok, id)
+	return fmt.Sprintf("%s:%d:%d:%d:%d", k, len(concrete), ok, id, slot), ixName
 }
 
-// op line token: <tmplIndex>/<id>=<abstract>
-func genBulk(r *rand.Rand, n int, tier string) []string {
-	bootEngine()
-	var out []string
-	weights := []string{"index", "index", "index", "create", "update", "delete", "garbage", "empty", "doc", "doc", "doc", "doc", "baddoc", "bigdoc", "edgedoc"}
-	for i := 0; i < n; i++ {
-		nl := r.Intn(11)
-		var toks []string
+func bkTok(tab []bkIdx, name string, id int, slot int) string {
+	ti := tmplIdx[name]
+	if name != "index" && name != "create" {
+		slot = 0
+	}
+	a, _ := abstractLine(bulkTmpls[ti].mk(id, bkIdxField(tab[slot])), id, slot)
+	return fmt.Sprintf("%d/%s", ti, a)
+}
+
+type bkAbs struct {
+	kind  string
+	ln    int
+	docOk bool
+	id    int
+	slot  int
+}
+
+// rebuilds the concrete lines of a body from its tokens and re-checks the abstraction with the real classifiers
+func bkParseBody(tab []bkIdx, toks []string) ([]string, []bkAbs, string) {
+	var lines []string
+	var al []bkAbs
+	for _, tok := range toks {
+		p := strings.SplitN(tok, "/", 2)
+		if len(p) != 2 {
+			return nil, nil, "bad-op"
+		}
+		ti, err := strconv.Atoi(p[0])
+		q := strings.Split(p[1], ":")
+		if err != nil || ti < 0 || ti >= len(bulkTmpls) || len(q) != 5 {
+			return nil, nil, "bad-op"
+		}
+		id, e1 := strconv.Atoi(q[3])
+		ln, e2 := strconv.Atoi(q[1])
+		slot, e3 := strconv.Atoi(q[4])
+		if e1 != nil || e2 != nil || e3 != nil || slot < 0 || slot >= len(tab) || id < 0 {
+			return nil, nil, "bad-op"
+		}
+		conc := bulkTmpls[ti].mk(id, bkIdxField(tab[slot]))
+		a, ixName := abstractLine(conc, id, slot)
+		if a != p[1] {
+			return nil, nil, "abstraction-drift " + tok + " vs " + a
+		}
+		if (q[0] == "i" || q[0] == "c") && ixName != bkIdxName(tab[slot]) {
+			return nil, nil, fmt.Sprintf("abstraction-drift %s: index name %q extracted, table says %q", tok, ixName, bkIdxName(tab[slot]))
+		}
+		lines = append(lines, conc)
+		al = append(al, bkAbs{q[0], ln, q[2] == "1", id, slot})
+	}
+	return lines, al, ""
+}
+
+// ---------------------------------------------------------------- generator
+
+// curated interleavings of the created documents' index names (letters in order of first appearance; which
+// table slot a letter stands for is shuffled, so "the second index of the table comes first" is covered too)
+var bkPatterns = map[int][]string{
+	1: {"A", "AA", "AAAA"},
+	2: {"AABA", "ABAB", "ABBA", "ABA", "AB", "AABB", "ABAA", "AAAB", "ABBBA", "ABABAB", "AABAB", "ABBAB"},
+	3: {"ABCA", "ABCB", "ABC", "ABAC", "ABCABC", "AABBCC", "ABCBA", "ACBCA", "ABACA", "AABCA"},
+	4: {"ABCD", "ABCDA", "ABCDABCD", "ABACAD", "ABCDCBA", "AABBCCDD", "ABCADB"},
+}
+
+// one case: the op line without its command word.  caseNo makes ids and new index names unique.
+func bkGenCase(r *rand.Rand, caseNo int, e2e bool) string {
+	// ---- the table: m valid names …
+	m := []int{1, 1, 1, 2, 2, 2, 2, 2, 3, 3, 3, 4, 4}[r.Intn(13)]
+	cands := []bkIdx{{tmpl: 'p', n: 0}, {tmpl: 'p', n: 1}, {tmpl: 'p', n: 2}, {tmpl: 'p', n: 3}, {tmpl: 'a', n: 0}, {tmpl: 'a', n: 1},
+		{tmpl: 'n', n: caseNo*2 + 0}, {tmpl: 'n', n: caseNo*2 + 1}}
+	r.Shuffle(len(cands), func(i, j int) { cands[i], cands[j] = cands[j], cands[i] })
+	var tab []bkIdx
+	if m >= 2 && r.Intn(4) == 0 { // an alias AND its target in one request
+		k := r.Intn(2)
+		tab = append(tab, bkIdx{tmpl: 'a', n: k}, bkIdx{tmpl: 'p', n: k})
+	}
+	for _, c := range cands {
+		if len(tab) >= m {
+			break
+		}
+		dup := false
+		for _, e := range tab {
+			if e.tmpl == c.tmpl && e.n == c.n {
+				dup = true
+			}
+		}
+		if !dup {
+			tab = append(tab, c)
+		}
+	}
+	r.Shuffle(len(tab), func(i, j int) { tab[i], tab[j] = tab[j], tab[i] })
+	valid := len(tab) // slots 0..valid-1 are the names the created documents go to
+	// … the target of every alias (named by no action unless it is one of the m) …
+	for k := 0; k < valid; k++ {
+		if tab[k].tmpl == 'a' {
+			have := false
+			for _, e := range tab {
+				if e.tmpl == 'p' && e.n == tab[k].n {
+					have = true
+				}
+			}
+			if !have {
+				tab = append(tab, bkIdx{tmpl: 'p', n: tab[k].n})
+			}
+		}
+	}
+	// … and names that fail validation
+	var invalid []int
+	if r.Intn(3) == 0 {
+		for c := 1 + r.Intn(2); c > 0; c-- {
+			invalid = append(invalid, len(tab))
+			tab = append(tab, bkIdx{tmpl: "xtd"[r.Intn(3)], n: r.Intn(8)})
+		}
+	}
+	for k := range tab {
+		v, rl, ok := bkAbsEntry(tab, k)
+		if !ok {
+			panic("bulk gen: alias target missing from the table")
+		}
+		tab[k].valid, tab[k].real = v, rl
+	}
+	// the store refuses: one real index (3 in 10), every index (1 in 20)
+	var reals []int
+	for k, e := range tab {
+		if e.valid && e.real == k {
+			reals = append(reals, k)
+		}
+	}
+	switch f := r.Intn(20); {
+	case f < 6:
+		tab[reals[r.Intn(len(reals))]].fail = true
+	case f == 6:
+		for _, k := range reals {
+			tab[k].fail = true
+		}
+	}
+
+	id := func(j int) int { return caseNo*100 + j + 1 }
+	var toks []string
+	add := func(name string, slot int) {
+		i := id(len(toks))
+		if e2e && !(name == "doc" || name == "edgedoc" || name == "bigdoc" || name == "baddoc") {
+			i = 0 // only document templates carry a _vid; every other line cannot be found by _vid even if stored
+		}
+		toks = append(toks, bkTok(tab, name, i, slot))
+	}
+	if r.Intn(10) < 3 {
+		// ---- unstructured: lines from the templates, an index/create line mostly followed by a document
+		weights := []string{"index", "index", "index", "create", "update", "delete", "garbage", "empty", "doc", "doc", "doc", "doc", "baddoc", "bigdoc", "edgedoc"}
 		expectDoc := false
-		for j := 0; j < nl; j++ {
+		for j, nl := 0, r.Intn(11); j < nl; j++ {
 			var name string
 			if expectDoc && r.Intn(6) != 0 {
 				name = []string{"doc", "doc", "doc", "baddoc", "bigdoc", "edgedoc", "empty"}[r.Intn(7)]
@@ -105,58 +394,232 @@ func genBulk(r *rand.Rand, n int, tier string) []string {
 				name = weights[r.Intn(len(weights))]
 			}
 			expectDoc = !expectDoc && (name == "index" || name == "create" || name == "update")
-			id := i*100 + j + 1
-			toks = append(toks, fmt.Sprintf("%d/%s", tmplIdx[name], abstractLine(bulkTmpls[tmplIdx[name]].mk(id), id)))
+			slot := r.Intn(len(tab))
+			if r.Intn(4) != 0 {
+				slot = r.Intn(valid)
+			}
+			add(name, slot)
 		}
-		if r.Intn(3) != 0 { // trailing newline = a final empty line
-			toks = append(toks, fmt.Sprintf("%d/%s", tmplIdx["empty"], abstractLine("", 0)))
+	} else {
+		// ---- structured: the created documents follow an interleaving pattern over the m names; in between,
+		// actions that fail (invalid index name, bad/oversize document, update/delete/garbage)
+		var pat string
+		if r.Intn(2) == 0 {
+			pat = bkPatterns[valid][r.Intn(len(bkPatterns[valid]))]
+		} else {
+			b := make([]byte, valid+r.Intn(6))
+			for i := range b {
+				b[i] = byte('A' + r.Intn(valid))
+			}
+			for l, pos := range r.Perm(len(b))[:valid] { // every name at least once
+				b[pos] = byte('A' + l)
+			}
+			pat = string(b)
 		}
-		if len(toks) == 0 {
-			toks = append(toks, fmt.Sprintf("%d/%s", tmplIdx["empty"], abstractLine("", 0)))
+		perm := r.Perm(valid) // letter → slot
+		noise := func() {
+			switch c := r.Intn(12); {
+			case c < 4 && len(invalid) > 0:
+				add([]string{"index", "create"}[r.Intn(2)], invalid[r.Intn(len(invalid))])
+				add([]string{"doc", "doc", "doc", "bigdoc"}[r.Intn(4)], 0)
+			case c < 5:
+				add("index", r.Intn(valid))
+				add([]string{"baddoc", "baddoc", "bigdoc"}[r.Intn(3)], 0)
+			case c < 6:
+				add("update", 0)
+				add("doc", 0)
+			case c < 7:
+				add("delete", 0)
+			case c < 8:
+				add("garbage", 0)
+			}
 		}
-		out = append(out, "bulk "+strings.Join(toks, " "))
+		for _, ch := range []byte(pat) {
+			if r.Intn(3) == 0 {
+				noise()
+			}
+			act := "index"
+			if r.Intn(4) == 0 {
+				act = "create"
+			}
+			add(act, perm[int(ch-'A')])
+			if r.Intn(40) == 0 {
+				add("edgedoc", 0)
+			} else {
+				add("doc", 0)
+			}
+		}
+		if r.Intn(4) == 0 {
+			noise()
+		}
+		if r.Intn(20) == 0 { // an action whose document is missing
+			add("index", r.Intn(valid))
+		}
+	}
+	if r.Intn(3) != 0 || len(toks) == 0 { // trailing newline = a final empty line
+		toks = append(toks, bkTok(tab, "empty", 0, 0))
+	}
+	return bkFormatTable(tab) + " " + strings.Join(toks, " ")
+}
+
+func genBulk(r *rand.Rand, n int, tier string) []string {
+	bkBoot()
+	var out []string
+	for i := 0; i < n; i++ {
+		out = append(out, "bulk "+bkGenCase(r, i, false))
 	}
 	return out
 }
 
-func execBulk(line string) Result {
-	bootEngine()
-	f := strings.Fields(line)
-	if len(f) < 2 || f[0] != "bulk" {
-		return Result{Out: "bad-op"}
+// ---------------------------------------------------------------- the per-action specification (independent of the model)
+
+type bkItem struct {
+	want  byte // c created, f failed, t too large
+	docID int  // id of the action's document line, -1 when it has none
+	slot  int  // table slot of the action's index name (meaningful when docID >= 0)
+}
+
+// walks the body action by action; each action's expected status depends only on itself.  Returns the items and the
+// number of trailing empty lines that were stripped (the trailing newline(s) of the body, not actions; blank lines in
+// the middle of a body are malformed actions)
+func bkSpec(tab []bkIdx, al []bkAbs) ([]bkItem, int) {
+	stripped := 0
+	for len(al) > 0 && al[len(al)-1].ln == 0 {
+		al = al[:len(al)-1]
+		stripped++
 	}
-	var lines []string
-	type abs struct {
-		kind  string
-		ln    int
-		docOk bool
-		id    int
+	var items []bkItem
+	for i := 0; i < len(al); {
+		a := al[i]
+		switch a.kind {
+		case "i", "c":
+			if i+1 >= len(al) {
+				items = append(items, bkItem{'f', -1, a.slot}) // missing document
+				i += 2
+				continue
+			}
+			d := al[i+1]
+			it := bkItem{'f', d.id, a.slot}
+			if !tab[a.slot].valid {
+				it.want = 'f' // no such index can exist
+			} else if d.ln >= 63000 {
+				it.want = 't'
+			} else if d.docOk {
+				it.want = 'c'
+			}
+			items = append(items, it)
+			i += 2
+		case "u":
+			items = append(items, bkItem{'f', -1, 0})
+			i += 2
+		default:
+			items = append(items, bkItem{'f', -1, 0})
+			i++
+		}
 	}
-	var al []abs
-	for _, tok := range f[1:] {
-		p := strings.SplitN(tok, "/", 2)
-		if len(p) != 2 {
-			return Result{Out: "bad-op"}
-		}
-		ti, err := strconv.Atoi(p[0])
-		q := strings.Split(p[1], ":")
-		if err != nil || ti < 0 || ti >= len(bulkTmpls) || len(q) != 4 {
-			return Result{Out: "bad-op"}
-		}
-		id, _ := strconv.Atoi(q[3])
-		ln, _ := strconv.Atoi(q[1])
-		conc := bulkTmpls[ti].mk(id)
-		if abstractLine(conc, id) != p[1] {
-			return Result{Out: "abstraction-drift " + tok + " vs " + abstractLine(conc, id)}
-		}
-		lines = append(lines, conc)
-		al = append(al, abs{q[0], ln, q[2] == "1", id})
-	}
-	body := strings.Join(lines, "\n")
-	_ = config.GetTimeStampKey()
-	processed, resp, _ := eswriter.HandleBulkBody([]byte(body), nil, 0, 0, false)
-	items, _ := resp["items"].([]interface{})
+	return items, stripped
+}
+
+func bkWantString(items []bkItem) string {
 	var sb strings.Builder
+	for _, it := range items {
+		sb.WriteByte(it.want)
+	}
+	return sb.String()
+}
+
+// distribution tags of a request: how many index names its created documents go to and in which interleaving
+func bkTags(tab []bkIdx, items []bkItem) []string {
+	var seq []int
+	for _, it := range items {
+		if it.want == 'c' {
+			seq = append(seq, it.slot)
+		}
+	}
+	distinct := map[int]bool{}
+	reals := map[int]bool{}
+	blocks := 0
+	for i, s := range seq {
+		distinct[s] = true
+		reals[tab[s].real] = true
+		if i == 0 || seq[i-1] != s {
+			blocks++
+		}
+	}
+	tags := []string{fmt.Sprintf("created-index-names=%d", len(distinct))}
+	switch {
+	case len(distinct) <= 1:
+	case blocks == len(distinct):
+		tags = append(tags, "interleaving=blocks(AABB)")
+	case seq[0] == seq[len(seq)-1]:
+		tags = append(tags, "interleaving=mixed,first=last(AABA)")
+	default:
+		tags = append(tags, "interleaving=mixed,first≠last(ABAB)")
+	}
+	if len(reals) < len(distinct) {
+		tags = append(tags, "alias-and-its-target-both-written")
+	}
+	anyAlias, anyNew, failSome, okSome := false, false, false, false
+	for s := range distinct {
+		if tab[s].tmpl == 'a' {
+			anyAlias = true
+		}
+		if tab[s].tmpl == 'n' {
+			anyNew = true
+		}
+		if tab[tab[s].real].fail {
+			failSome = true
+		} else {
+			okSome = true
+		}
+	}
+	if anyAlias {
+		tags = append(tags, "alias-written")
+	}
+	if anyNew {
+		tags = append(tags, "new-index-written")
+	}
+	if failSome && okSome {
+		tags = append(tags, "store-refuses-some-indexes")
+	} else if failSome {
+		tags = append(tags, "store-refuses-all-indexes")
+	}
+	for i, it := range items {
+		if it.docID >= 0 && !tab[it.slot].valid {
+			before, after := false, false
+			for j, o := range items {
+				if o.want == 'c' && j < i {
+					before = true
+				}
+				if o.want == 'c' && j > i {
+					after = true
+				}
+			}
+			if before && after {
+				tags = append(tags, "invalid-index-name-in-the-middle")
+			} else {
+				tags = append(tags, "invalid-index-name-at-an-end")
+			}
+			break
+		}
+	}
+	return tags
+}
+
+// ---------------------------------------------------------------- suite "bulk": the real handler in process
+
+type bkObs struct {
+	vt  string // SegStore.VirtualTableName: the real index the record went to
+	rec string
+}
+
+var bkObserved []bkObs
+var bkDirty = map[string]bool{} // index names that have a segstore in this process
+
+// the items as printed (c/f/t, any other status as ?<status>), one letter per item (x = any other status), number of non-201 items
+func bkStatusLetters(resp map[string]interface{}) (string, string, int) {
+	items, _ := resp["items"].([]interface{})
+	var sb, one strings.Builder
 	nfail := 0
 	for _, it := range items {
 		m, _ := it.(map[string]interface{})
@@ -172,72 +635,159 @@ func execBulk(line string) Result {
 		switch st {
 		case 201:
 			sb.WriteByte('c')
+			one.WriteByte('c')
 		case 400:
 			sb.WriteByte('f')
+			one.WriteByte('f')
 			nfail++
 		case 413:
 			sb.WriteByte('t')
+			one.WriteByte('t')
 			nfail++
 		default:
 			sb.WriteString(fmt.Sprintf("?%d", st))
+			one.WriteByte('x')
+			nfail++
 		}
 	}
+	return sb.String(), one.String(), nfail
+}
+
+func execBulk(line string) Result {
+	bkBoot()
+	f := strings.Fields(line)
+	if len(f) < 3 || f[0] != "bulk" {
+		return Result{Out: "bad-op"}
+	}
+	tab, e := bkParseTable(f[1])
+	if e != "" {
+		return Result{Out: e}
+	}
+	lines, al, e := bkParseBody(tab, f[2:])
+	if e != "" {
+		return Result{Out: e}
+	}
+	idByText := map[string]int{}
+	for i, l := range lines {
+		if l != "" {
+			idByText[l] = al[i].id
+		}
+	}
+	body := strings.Join(lines, "\n")
+
+	// ---- the store refuses the chosen indexes: no segstore may exist for them, and none can be created
+	for k, e := range tab {
+		if e.fail && e.valid && e.real == k {
+			name := bkIdxName(e)
+			if bkDirty[name] {
+				writer.DeleteVirtualTableSegStore(name)
+				delete(bkDirty, name)
+			}
+			bkWorkerBlock(name)
+		}
+	}
+	bkObserved = bkObserved[:0]
+	hooks.GlobalHooks.AfterWritingToSegment = func(rid uint64, segstore interface{}, record []byte, ts uint64, st sutils.SIGNAL_TYPE) error {
+		vt := "?"
+		if ss, ok := segstore.(*writer.SegStore); ok {
+			vt = ss.VirtualTableName
+		}
+		bkObserved = append(bkObserved, bkObs{vt, string(record)})
+		return nil
+	}
+	processed, resp, _ := eswriter.HandleBulkBody([]byte(body), nil, 0, 0, false)
+	hooks.GlobalHooks.AfterWritingToSegment = nil
+	for k, e := range tab {
+		if !(e.valid && e.real == k) {
+			continue
+		}
+		name := bkIdxName(e)
+		if e.fail {
+			os.Remove(bkFinalDir(name))
+		} else if e.tmpl == 'n' {
+			writer.DeleteVirtualTableSegStore(name) // new names are used once: keep the number of segstores bounded
+		} else {
+			bkDirty[name] = true
+		}
+	}
+
+	gotOut, got, nfail := bkStatusLetters(resp)
 	errFlag := 0
 	if b, ok := resp["errors"].(bool); ok && b {
 		errFlag = 1
 	}
-	res := Result{Out: fmt.Sprintf("items=%s errors=%d processed=%d", sb.String(), errFlag, processed)}
 
-	// ---- the property on the real code, from an independent per-action specification:
-	// walk the body action by action; each action's expected status depends only on itself.
-	var want strings.Builder
-	i := 0
-	sawBig := false
-	// trailing empty lines are the trailing newline(s) of the body, not actions (blank lines in the
-	// middle of a body are malformed actions)
-	stripped := 0
-	for len(al) > 0 && al[len(al)-1].ln == 0 {
-		al = al[:len(al)-1]
-		stripped++
-	}
-	for i < len(al) {
-		a := al[i]
-		switch a.kind {
-		case "i", "c":
-			if i+1 >= len(al) {
-				want.WriteByte('f') // missing document
-				i += 2
-				continue
-			}
-			d := al[i+1]
-			if d.ln >= 63000 {
-				want.WriteByte('t')
-				sawBig = true
-			} else if d.docOk {
-				want.WriteByte('c')
-			} else {
-				want.WriteByte('f')
-			}
-			i += 2
-		case "u":
-			want.WriteByte('f')
-			i += 2
-		default:
-			want.WriteByte('f')
-			i++
+	items, stripped := bkSpec(tab, al)
+	slotOfDoc := map[int]int{}
+	for _, it := range items {
+		if it.docID >= 0 {
+			slotOfDoc[it.docID] = it.slot
 		}
 	}
-	w := want.String()
-	got := sb.String()
+	realSlot := func(vt string) int {
+		for k, e := range tab {
+			if e.valid && e.real == k && bkIdxName(e) == vt {
+				return k
+			}
+		}
+		return -1
+	}
+	// ---- answer line: per (real index, index name of the document's action) the documents in the order the store took them
+	type key struct{ real, slot int }
+	groups := map[key][]string{}
+	var keys []key
+	unknown := ""
+	for _, o := range bkObserved {
+		id, ok := idByText[o.rec]
+		rs := realSlot(o.vt)
+		if !ok || rs < 0 {
+			unknown = fmt.Sprintf(" unexpected-record=%s:%q", o.vt, trunc(o.rec, 60))
+			continue
+		}
+		k := key{rs, slotOfDoc[id]}
+		if _, seen := groups[k]; !seen {
+			keys = append(keys, k)
+		}
+		groups[k] = append(groups[k], strconv.Itoa(id))
+	}
+	sort.Slice(keys, func(i, j int) bool {
+		if keys[i].real != keys[j].real {
+			return keys[i].real < keys[j].real
+		}
+		return keys[i].slot < keys[j].slot
+	})
+	var gs []string
+	for _, k := range keys {
+		gs = append(gs, fmt.Sprintf("%d:%d=%s", k.real, k.slot, strings.Join(groups[k], ",")))
+	}
+	res := Result{Out: fmt.Sprintf("items=%s errors=%d processed=%d stored=%s%s", gotOut, errFlag, processed, strings.Join(gs, ";"), unknown)}
+
+	// ---- the property on the real code, from the independent per-action specification
+	w := bkWantString(items)
+	// an item whose batch the store refuses must not be answered created; with which status is not prescribed
+	// (that it IS answered created is reported below as bulk-store/store-refused-batch-still-acknowledged)
+	refusedItem := map[int]bool{}
+	for i, it := range items {
+		if it.want == 'c' && tab[tab[it.slot].real].fail {
+			refusedItem[i] = true
+		}
+	}
 	// latitude: each blank line before the last trailing newline may or may not be answered with a failed item
 	for m := 1; m < stripped && len(got) > len(w); m++ {
 		if got[len(w)] == 'f' {
 			w += "f"
 		}
 	}
-	res.Nontrivial = len(al) >= 2 && strings.ContainsAny(w, "ft")
-	res.Tags = append(res.Tags, fmt.Sprintf("actions=%d", len(w)))
-	if strings.Contains(w, "t") {
+	res.Tags = append(bkTags(tab, items), fmt.Sprintf("actions=%d", len(w)))
+	multi := false
+	for _, t := range res.Tags {
+		if strings.HasPrefix(t, "interleaving=") {
+			multi = true
+		}
+	}
+	res.Nontrivial = len(al) >= 2 && (strings.ContainsAny(w, "ft") || multi)
+	sawBig := strings.Contains(w, "t")
+	if sawBig {
 		res.Tags = append(res.Tags, "has-oversize")
 	}
 	if len(got) != len(w) {
@@ -246,7 +796,14 @@ func execBulk(line string) Result {
 			cls = "trailing-action-without-following-bytes-dropped"
 		}
 		res.Fails = append(res.Fails, PropFail{Sig: "bulk-item-count/" + cls, Msg: fmt.Sprintf("items %q but the body has %d actions (expected %q)", got, len(w), w)})
-	} else if got != w {
+	} else if func() bool {
+		for k := range w {
+			if got[k] != w[k] && !refusedItem[k] {
+				return true
+			}
+		}
+		return false
+	}() {
 		cls := "other"
 		if sawBig {
 			stale := true
@@ -274,132 +831,164 @@ func execBulk(line string) Result {
 		}
 		res.Fails = append(res.Fails, PropFail{Sig: "bulk-errors-flag/" + cls, Msg: fmt.Sprintf("errors=%d but %d item(s) failed (items %q)", errFlag, nfail, got)})
 	}
+	// created ⇔ the store took the document exactly once, under the real index of ITS action
+	seenAt := map[int][]string{}
+	for _, o := range bkObserved {
+		if id, ok := idByText[o.rec]; ok {
+			seenAt[id] = append(seenAt[id], o.vt)
+		}
+	}
+	reported := map[string]bool{}
+	fail := func(sig, msg string) {
+		if !reported[sig] {
+			reported[sig] = true
+			res.Fails = append(res.Fails, PropFail{Sig: sig, Msg: msg})
+		}
+	}
+	for i, it := range items {
+		if it.docID < 0 || i >= len(got) {
+			continue
+		}
+		at := seenAt[it.docID]
+		if got[i] != 'c' {
+			if len(at) > 0 {
+				fail("bulk-store/failed-item-was-stored", fmt.Sprintf("item %d was answered %c but its document (line id %d) was stored in %v", i, got[i], it.docID, at))
+			}
+			continue
+		}
+		if !tab[it.slot].valid { // answered created for a name no index can have
+			if len(at) == 0 {
+				fail("bulk-store/acknowledged-but-never-stored", fmt.Sprintf("item %d (index name %q, which no index can have) was answered 201 but its document (line id %d) never reached the store (items %q)", i, bkIdxName(tab[it.slot]), it.docID, got))
+			} else {
+				fail("bulk-store/stored-under-another-index", fmt.Sprintf("item %d addressed the index name %q, which no index can have, and its document (line id %d) was stored in %v", i, bkIdxName(tab[it.slot]), it.docID, at))
+			}
+			continue
+		}
+		want := tab[tab[it.slot].real]
+		switch {
+		case len(at) == 0 && want.fail:
+			fail("bulk-store/store-refused-batch-still-acknowledged", fmt.Sprintf("item %d (index %s) was answered 201 with errors=%d, but the store refused the batch of index %s: its document (line id %d) was not stored", i, bkIdxName(tab[it.slot]), errFlag, bkIdxName(want), it.docID))
+		case len(at) == 0:
+			fail("bulk-store/acknowledged-but-never-stored", fmt.Sprintf("item %d (index %s) was answered 201 but its document (line id %d) never reached the store, which refused nothing (items %q)", i, bkIdxName(tab[it.slot]), it.docID, got))
+		case len(at) > 1:
+			fail("bulk-store/document-stored-twice", fmt.Sprintf("item %d: its document (line id %d) was stored %d times: %v", i, it.docID, len(at), at))
+		case at[0] != bkIdxName(want):
+			fail("bulk-store/stored-under-another-index", fmt.Sprintf("item %d addressed index %s (real index %s) but its document (line id %d) was stored in %s", i, bkIdxName(tab[it.slot]), bkIdxName(want), it.docID, at[0]))
+		}
+	}
 	return res
 }
 
-// ---- end to end: acknowledged == searchable (C15 "created iff that document becomes searchable exactly once")
+// ---------------------------------------------------------------- end to end: acknowledged == searchable in ITS index
+// (C15 "created iff that document becomes searchable exactly once")
 
 func genBulkE2E(r *rand.Rand, n int, tier string) []string {
 	var out []string
-	bootEngine()
-	for _, l := range genBulk(r, n, tier) {
-		// only document templates carry a _vid; every other line gets id 0 (it cannot be found by _vid even if stored)
-		var toks []string
-		for _, tok := range strings.Fields(l)[1:] {
-			p := strings.SplitN(tok, "/", 2)
-			ti, _ := strconv.Atoi(p[0])
-			name := bulkTmpls[ti].name
-			if name == "doc" || name == "edgedoc" || name == "bigdoc" || name == "baddoc" {
-				toks = append(toks, tok)
-			} else {
-				toks = append(toks, fmt.Sprintf("%d/%s", ti, abstractLine(bulkTmpls[ti].mk(0), 0)))
-			}
-		}
-		if len(toks) == 1 && strings.HasSuffix(toks[0], ":0:0:0") && strings.HasPrefix(toks[0], fmt.Sprintf("%d/", tmplIdx["empty"])) {
+	bkBoot()
+	for i := 0; i < n; i++ {
+		c := bkGenCase(r, i, true)
+		if len(strings.Fields(c)) == 2 && strings.HasSuffix(c, ":0:0:0:0") {
 			continue // empty body
 		}
-		out = append(out, "bulke2e "+strings.Join(toks, " "))
+		out = append(out, "bulke2e "+c)
 	}
-	// concurrent requests: K bodies for the SAME not-yet-existing index posted at the same moment
-	// (the first writes to a new index race on creating its segment store)
+	// concurrent requests: K bodies for the SAME not-yet-existing index (or two of them, interleaved) posted at the
+	// same moment (the first writes to a new index race on creating its segment store)
 	for c := 0; c < n/4+1; c++ {
 		k := 2 + r.Intn(7)
+		tab := []bkIdx{{tmpl: 'p', n: r.Intn(4)}}
+		if r.Intn(2) == 0 {
+			tab = append(tab, bkIdx{tmpl: 'p', n: tab[0].n + 1})
+		}
+		for j := range tab {
+			tab[j].valid, tab[j].real, _ = bkAbsEntry(tab, j)
+		}
 		var bodies []string
 		for b := 0; b < k; b++ {
 			nd := 1 + r.Intn(5)
 			var toks []string
 			for d := 0; d < nd; d++ {
 				id := 1000000 + c*1000 + b*10 + d + 1
-				toks = append(toks, fmt.Sprintf("%d/%s", tmplIdx["index"], abstractLine(bulkTmpls[tmplIdx["index"]].mk(0), 0)))
-				toks = append(toks, fmt.Sprintf("%d/%s", tmplIdx["doc"], abstractLine(bulkTmpls[tmplIdx["doc"]].mk(id), id)))
+				toks = append(toks, bkTok(tab, "index", 0, r.Intn(len(tab))))
+				toks = append(toks, bkTok(tab, "doc", id, 0))
 			}
-			toks = append(toks, fmt.Sprintf("%d/%s", tmplIdx["empty"], abstractLine("", 0)))
+			toks = append(toks, bkTok(tab, "empty", 0, 0))
 			bodies = append(bodies, strings.Join(toks, " "))
 		}
-		out = append(out, "bulke2e "+strings.Join(bodies, " || "))
+		out = append(out, "bulke2e "+bkFormatTable(tab)+" "+strings.Join(bodies, " || "))
 	}
 	return out
 }
 
-func execBulkE2E(line string) Result {
-	f := strings.Fields(line)
-	if len(f) < 2 || f[0] != "bulke2e" {
-		return Result{Out: "bad-op"}
-	}
-	bootEngine() // the abstraction functions below need the engine's config
-	if strings.Contains(line, " || ") {
-		return execBulkE2EPar(strings.Split(strings.TrimPrefix(line, "bulke2e "), " || "))
-	}
-	var lines []string
-	var ids []int
-	for _, tok := range f[1:] {
-		p := strings.SplitN(tok, "/", 2)
-		if len(p) != 2 {
-			return Result{Out: "bad-op"}
-		}
-		ti, err := strconv.Atoi(p[0])
-		q := strings.Split(p[1], ":")
-		if err != nil || ti < 0 || ti >= len(bulkTmpls) || len(q) != 4 {
-			return Result{Out: "bad-op"}
-		}
-		id, _ := strconv.Atoi(q[3])
-		lines = append(lines, bulkTmpls[ti].mk(id))
-		ids = append(ids, id)
-	}
-	body := strings.Join(lines, "\n")
+// runs one engine worker: aliases, the refusing store, the request(s), a flush, one search per real index and one
+// over all indexes.  Returns the first output line (the response) and the _vid counts per search.
+func bkRunWorker(tab []bkIdx, request string, procs int) (string, []map[int]int, *Result) {
 	var in bytes.Buffer
-	fmt.Fprintf(&in, "bulk %s\nflush\nidx *\nq 0 5000 1500000000000 %d %s\n", hex.EncodeToString([]byte(body)), time.Now().UnixMilli()+3600000, hex.EncodeToString([]byte("*")))
+	fmt.Fprintf(&in, "alias vbp0 vbal0\nalias vbp1 vbal1\n")
+	var reals []int
+	for k, e := range tab {
+		if e.valid && e.real == k {
+			reals = append(reals, k)
+			if e.fail {
+				fmt.Fprintf(&in, "block %s\n", bkIdxName(e))
+			}
+		}
+	}
+	fmt.Fprintf(&in, "%s\nflush\n", request)
+	end := time.Now().UnixMilli() + 3600000
+	star := hex.EncodeToString([]byte("*"))
+	for _, k := range reals {
+		fmt.Fprintf(&in, "idx %s\nq 0 5000 1500000000000 %d %s\n", bkIdxName(tab[k]), end, star)
+	}
+	fmt.Fprintf(&in, "idx *\nq 0 5000 1500000000000 %d %s\n", end, star)
 	cmd := exec.Command(os.Args[0], "e2eworker")
 	cmd.Stdin = &in
 	var stdout bytes.Buffer
 	cmd.Stdout = &stdout
-	cmd.Env = append(os.Environ(), "GOMEMLIMIT=2GiB", "GOMAXPROCS=4")
+	cmd.Env = append(os.Environ(), "GOMEMLIMIT=2GiB", fmt.Sprintf("GOMAXPROCS=%d", procs))
 	done := make(chan error, 1)
 	if err := cmd.Start(); err != nil {
-		return Result{Out: "worker-start-failed"}
+		return "", nil, &Result{Out: "worker-start-failed"}
 	}
 	go func() { done <- cmd.Wait() }()
 	select {
 	case err := <-done:
 		if err != nil {
-			return Result{Out: "worker-died", Fails: []PropFail{{Sig: "bulk-e2e/worker-crash", Msg: fmt.Sprintf("engine worker exited abnormally: %v", err)}}, Nontrivial: true}
+			return "", nil, &Result{Out: "worker-died", Fails: []PropFail{{Sig: "bulk-e2e/worker-crash", Msg: fmt.Sprintf("engine worker exited abnormally: %v", err)}}, Nontrivial: true}
 		}
 	case <-time.After(120 * time.Second):
 		cmd.Process.Kill()
 		<-done
-		return Result{Out: "worker-timeout", Fails: []PropFail{{Sig: "bulk-e2e/worker-timeout", Msg: "engine worker did not finish within 120 s"}}, Nontrivial: true}
+		return "", nil, &Result{Out: "worker-timeout", Fails: []PropFail{{Sig: "bulk-e2e/worker-timeout", Msg: "engine worker did not finish within 120 s"}}, Nontrivial: true}
 	}
-	var bulkResp struct {
-		Items  []int `json:"items"`
-		Errors bool  `json:"errors"`
+	outLines := strings.Split(strings.TrimSpace(stdout.String()), "\n")
+	if len(outLines) != len(reals)+2 {
+		return "", nil, &Result{Out: fmt.Sprintf("worker-protocol: %d output lines for %d searches", len(outLines), len(reals)+1)}
 	}
-	var qResp map[string]interface{}
-	for _, l := range strings.Split(strings.TrimSpace(stdout.String()), "\n") {
-		if strings.HasPrefix(l, `{"bulk"`) || strings.Contains(l, `"bulk":true`) {
-			json.Unmarshal([]byte(l), &bulkResp)
-		} else if strings.HasPrefix(l, "{") {
-			dec := json.NewDecoder(strings.NewReader(l))
-			dec.UseNumber()
-			dec.Decode(&qResp)
-		}
-	}
-	found := map[int]int{}
-	if recs, ok := qResp["recs"].([]interface{}); ok {
-		for _, r := range recs {
-			m, _ := r.(map[string]interface{})
-			if v, ok := m["_vid"].(json.Number); ok {
-				n, _ := strconv.Atoi(v.String())
-				found[n]++
+	var founds []map[int]int
+	for _, l := range outLines[1:] {
+		var qResp map[string]interface{}
+		dec := json.NewDecoder(strings.NewReader(l))
+		dec.UseNumber()
+		dec.Decode(&qResp)
+		found := map[int]int{}
+		if recs, ok := qResp["recs"].([]interface{}); ok {
+			for _, r := range recs {
+				m, _ := r.(map[string]interface{})
+				if v, ok := m["_vid"].(json.Number); ok {
+					n, _ := strconv.Atoi(v.String())
+					found[n]++
+				}
 			}
 		}
+		founds = append(founds, found)
 	}
-	var vids []int
-	for v := range found {
-		vids = append(vids, v)
-	}
-	sort.Ints(vids)
+	return outLines[0], founds, nil
+}
+
+func bkLetters(sts []int) string {
 	var sb strings.Builder
-	for _, st := range bulkResp.Items {
+	for _, st := range sts {
 		switch st {
 		case 201:
 			sb.WriteByte('c')
@@ -411,168 +1000,166 @@ func execBulkE2E(line string) Result {
 			sb.WriteString(fmt.Sprintf("?%d", st))
 		}
 	}
-	var vs []string
-	for _, v := range vids {
-		vs = append(vs, strconv.Itoa(v))
-	}
-	res := Result{Out: fmt.Sprintf("items=%s stored=%s", sb.String(), strings.Join(vs, ",")), Nontrivial: len(lines) >= 2}
-	for v, c := range found {
-		if c > 1 {
-			res.Fails = append(res.Fails, PropFail{Sig: "bulk-e2e/document-stored-twice", Msg: fmt.Sprintf("document _vid=%d is returned %d times", v, c)})
-		}
-	}
-	// independent pairing of acknowledged items with their documents: walk the body like the per-action specification
-	type abs struct {
-		kind string
-		ln   int
-		id   int
-	}
-	var al []abs
-	for i, tok := range f[1:] {
-		q := strings.Split(strings.SplitN(tok, "/", 2)[1], ":")
-		ln, _ := strconv.Atoi(q[1])
-		al = append(al, abs{q[0], ln, ids[i]})
-	}
-	for len(al) > 0 && al[len(al)-1].ln == 0 {
-		al = al[:len(al)-1]
-	}
-	item := 0
-	for i := 0; i < len(al); {
-		a := al[i]
-		docID := -1
-		switch a.kind {
-		case "i", "c":
-			if i+1 < len(al) {
-				docID = al[i+1].id
-			}
-			i += 2
-		case "u":
-			i += 2
-		default:
-			i++
-		}
-		if item < len(bulkResp.Items) {
-			created := bulkResp.Items[item] == 201
-			if docID > 0 {
-				if created && found[docID] == 0 {
-					res.Fails = append(res.Fails, PropFail{Sig: "bulk-e2e/acknowledged-but-not-searchable", Msg: fmt.Sprintf("item %d was answered 201 but its document _vid=%d is not found after flush", item, docID)})
-				}
-				if !created && found[docID] > 0 {
-					res.Fails = append(res.Fails, PropFail{Sig: "bulk-e2e/failed-item-was-stored", Msg: fmt.Sprintf("item %d was answered %d but its document _vid=%d is searchable", item, bulkResp.Items[item], docID)})
-				}
-			}
-		}
-		item++
-	}
-	return res
+	return sb.String()
 }
 
-// K bodies posted concurrently to the real entry point; all acknowledged documents must be searchable once
-func execBulkE2EPar(bodies []string) Result {
-	var hexes []string
-	var allIDs [][]int
-	for _, b := range bodies {
-		var lines []string
-		var ids []int
-		for _, tok := range strings.Fields(b) {
-			p := strings.SplitN(tok, "/", 2)
-			if len(p) != 2 {
-				return Result{Out: "bad-op"}
-			}
-			ti, err := strconv.Atoi(p[0])
-			q := strings.Split(p[1], ":")
-			if err != nil || ti < 0 || ti >= len(bulkTmpls) || len(q) != 4 {
-				return Result{Out: "bad-op"}
-			}
-			id, _ := strconv.Atoi(q[3])
-			lines = append(lines, bulkTmpls[ti].mk(id))
-			if bulkTmpls[ti].name == "doc" {
-				ids = append(ids, id)
-			}
-		}
-		hexes = append(hexes, hex.EncodeToString([]byte(strings.Join(lines, "\n"))))
-		allIDs = append(allIDs, ids)
-	}
-	var in bytes.Buffer
-	fmt.Fprintf(&in, "bulkpar %s\nflush\nidx *\nq 0 5000 1500000000000 %d %s\n", strings.Join(hexes, " "), time.Now().UnixMilli()+3600000, hex.EncodeToString([]byte("*")))
-	cmd := exec.Command(os.Args[0], "e2eworker")
-	cmd.Stdin = &in
-	var stdout bytes.Buffer
-	cmd.Stdout = &stdout
-	cmd.Env = append(os.Environ(), "GOMEMLIMIT=2GiB", "GOMAXPROCS=8")
-	done := make(chan error, 1)
-	if err := cmd.Start(); err != nil {
-		return Result{Out: "worker-start-failed"}
-	}
-	go func() { done <- cmd.Wait() }()
-	select {
-	case err := <-done:
-		if err != nil {
-			return Result{Out: "worker-died", Fails: []PropFail{{Sig: "bulk-e2e/worker-crash", Msg: fmt.Sprintf("engine worker exited abnormally: %v", err)}}, Nontrivial: true}
-		}
-	case <-time.After(120 * time.Second):
-		cmd.Process.Kill()
-		<-done
-		return Result{Out: "worker-timeout", Fails: []PropFail{{Sig: "bulk-e2e/worker-timeout", Msg: "engine worker did not finish within 120 s"}}, Nontrivial: true}
-	}
-	var par struct {
-		Bulkpar []struct {
-			Items  []int `json:"items"`
-			Errors bool  `json:"errors"`
-		} `json:"bulkpar"`
-	}
-	var qResp map[string]interface{}
-	for _, l := range strings.Split(strings.TrimSpace(stdout.String()), "\n") {
-		if strings.HasPrefix(l, `{"bulkpar"`) {
-			json.Unmarshal([]byte(l), &par)
-		} else if strings.HasPrefix(l, "{") {
-			dec := json.NewDecoder(strings.NewReader(l))
-			dec.UseNumber()
-			dec.Decode(&qResp)
+// the answer line's stored= part and the per-item judgement shared by the single and the concurrent form
+func bkJudgeE2E(tab []bkIdx, founds []map[int]int, reqs [][]bkItem, gots []string, res *Result, where string) string {
+	var reals []int
+	for k, e := range tab {
+		if e.valid && e.real == k {
+			reals = append(reals, k)
 		}
 	}
-	found := map[int]int{}
-	if recs, ok := qResp["recs"].([]interface{}); ok {
-		for _, r := range recs {
-			m, _ := r.(map[string]interface{})
-			if v, ok := m["_vid"].(json.Number); ok {
-				n, _ := strconv.Atoi(v.String())
-				found[n]++
+	var parts []string
+	for i, k := range reals {
+		var vids []int
+		for v := range founds[i] {
+			if v != 0 {
+				vids = append(vids, v)
 			}
 		}
+		sort.Ints(vids)
+		if len(vids) > 0 {
+			var vs []string
+			for _, v := range vids {
+				vs = append(vs, strconv.Itoa(v))
+			}
+			parts = append(parts, fmt.Sprintf("%d=%s", k, strings.Join(vs, ",")))
+		}
 	}
-	res := Result{Nontrivial: true, Tags: []string{fmt.Sprintf("concurrent-bodies=%d", len(bodies))}}
-	var itemStrs []string
-	for bi, ids := range allIDs {
-		var sb strings.Builder
-		if bi < len(par.Bulkpar) {
-			for di, st := range par.Bulkpar[bi].Items {
-				if st == 201 {
-					sb.WriteByte('c')
-					if di < len(ids) && found[ids[di]] == 0 {
-						res.Fails = append(res.Fails, PropFail{Sig: "bulk-e2e/concurrent/acknowledged-but-not-searchable", Msg: fmt.Sprintf("request %d item %d was answered 201 but its document _vid=%d is not found after flush (%d concurrent requests to a new index)", bi, di, ids[di], len(bodies))})
-					}
+	all := founds[len(founds)-1]
+	reported := map[string]bool{}
+	fail := func(sig, msg string) {
+		if !reported[sig] {
+			reported[sig] = true
+			res.Fails = append(res.Fails, PropFail{Sig: "bulk-e2e/" + where + sig, Msg: msg})
+		}
+	}
+	for ri, items := range reqs {
+		got := gots[ri]
+		if strings.Contains(got, "?") {
+			continue
+		}
+		for i, it := range items {
+			if it.docID <= 0 || i >= len(got) {
+				continue
+			}
+			created := got[i] == 'c'
+			total := all[it.docID]
+			if !created {
+				if total > 0 {
+					fail("failed-item-was-stored", fmt.Sprintf("request %d item %d was answered %c but its document _vid=%d is searchable", ri, i, got[i], it.docID))
+				}
+				continue
+			}
+			if !tab[it.slot].valid { // answered created for a name no index can have
+				if total == 0 {
+					fail("acknowledged-but-not-searchable", fmt.Sprintf("request %d item %d (index name %q, which no index can have) was answered 201 but its document _vid=%d is not found after flush (items %q)", ri, i, bkIdxName(tab[it.slot]), it.docID, got))
 				} else {
-					sb.WriteString(fmt.Sprintf("?%d", st))
+					fail("searchable-under-another-index", fmt.Sprintf("request %d item %d addressed the index name %q, which no index can have; its document _vid=%d is searchable", ri, i, bkIdxName(tab[it.slot]), it.docID))
+				}
+				continue
+			}
+			wantSlot := tab[it.slot].real
+			inOwn := 0
+			elsewhere := ""
+			for j, k := range reals {
+				if k == wantSlot {
+					inOwn = founds[j][it.docID]
+				} else if founds[j][it.docID] > 0 {
+					elsewhere = bkIdxName(tab[k])
 				}
 			}
+			switch {
+			case total == 0 && tab[wantSlot].fail:
+				fail("store-refused-batch-still-acknowledged", fmt.Sprintf("request %d item %d (index %s) was answered 201, but the store refused the batch of index %s: its document _vid=%d is not found after flush", ri, i, bkIdxName(tab[it.slot]), bkIdxName(tab[wantSlot]), it.docID))
+			case total == 0:
+				fail("acknowledged-but-not-searchable", fmt.Sprintf("request %d item %d (index %s) was answered 201 but its document _vid=%d is not found after flush (items %q)", ri, i, bkIdxName(tab[it.slot]), it.docID, got))
+			case total > 1 || inOwn > 1:
+				fail("document-stored-twice", fmt.Sprintf("document _vid=%d is returned %d times", it.docID, total))
+			case inOwn == 0:
+				if elsewhere == "" {
+					elsewhere = "an index that is none of the request's"
+				}
+				fail("searchable-under-another-index", fmt.Sprintf("request %d item %d addressed index %s (real index %s) but its document _vid=%d is not found there; it is found in %s", ri, i, bkIdxName(tab[it.slot]), bkIdxName(tab[wantSlot]), it.docID, elsewhere))
+			}
 		}
-		itemStrs = append(itemStrs, sb.String())
 	}
-	for v, c := range found {
-		if c > 1 {
-			res.Fails = append(res.Fails, PropFail{Sig: "bulk-e2e/concurrent/document-stored-twice", Msg: fmt.Sprintf("document _vid=%d is returned %d times", v, c)})
+	return strings.Join(parts, ";")
+}
+
+func execBulkE2E(line string) Result {
+	f := strings.Fields(line)
+	if len(f) < 3 || f[0] != "bulke2e" {
+		return Result{Out: "bad-op"}
+	}
+	bkBoot() // the abstraction functions below need the engine's config and the aliases
+	tab, e := bkParseTable(f[1])
+	if e != "" {
+		return Result{Out: e}
+	}
+	var bodies [][]string
+	cur := []string{}
+	for _, tok := range f[2:] {
+		if tok == "||" {
+			bodies = append(bodies, cur)
+			cur = []string{}
+		} else {
+			cur = append(cur, tok)
 		}
 	}
-	var vids []int
-	for v := range found {
-		vids = append(vids, v)
+	bodies = append(bodies, cur)
+	var hexes []string
+	var reqs [][]bkItem
+	nlines := 0
+	var tags []string
+	for _, b := range bodies {
+		lines, al, e := bkParseBody(tab, b)
+		if e != "" {
+			return Result{Out: e}
+		}
+		nlines += len(lines)
+		hexes = append(hexes, hex.EncodeToString([]byte(strings.Join(lines, "\n"))))
+		items, _ := bkSpec(tab, al)
+		reqs = append(reqs, items)
+		if len(bodies) == 1 {
+			tags = bkTags(tab, items)
+		}
 	}
-	sort.Ints(vids)
-	var vs []string
-	for _, v := range vids {
-		vs = append(vs, strconv.Itoa(v))
+	par := len(bodies) > 1
+	request, procs, where := "bulk "+hexes[0], 4, ""
+	if par {
+		request, procs, where = "bulkpar "+strings.Join(hexes, " "), 8, "concurrent/"
+		tags = []string{fmt.Sprintf("concurrent-bodies=%d", len(bodies)), fmt.Sprintf("concurrent-index-names=%d", len(tab))}
 	}
-	res.Out = fmt.Sprintf("items=%s stored=%s", strings.Join(itemStrs, "|"), strings.Join(vs, ","))
+	first, founds, bad := bkRunWorker(tab, request, procs)
+	if bad != nil {
+		return *bad
+	}
+	var gots []string
+	if par {
+		var pr struct {
+			Bulkpar []struct {
+				Items []int `json:"items"`
+			} `json:"bulkpar"`
+		}
+		json.Unmarshal([]byte(first), &pr)
+		for _, b := range pr.Bulkpar {
+			gots = append(gots, bkLetters(b.Items))
+		}
+	} else {
+		var br struct {
+			Items []int `json:"items"`
+		}
+		json.Unmarshal([]byte(first), &br)
+		gots = append(gots, bkLetters(br.Items))
+	}
+	for len(gots) < len(reqs) {
+		gots = append(gots, "")
+	}
+	res := Result{Nontrivial: nlines >= 2, Tags: tags}
+	stored := bkJudgeE2E(tab, founds, reqs, gots, &res, where)
+	res.Out = fmt.Sprintf("items=%s stored=%s", strings.Join(gots, "|"), stored)
 	return res
 }
